@@ -134,8 +134,7 @@ namespace rkcommon {
     inline Optional<T>::Optional(Optional<T> &&other) : Optional()
     {
       if (other.has_value()) {
-        reset();
-        value()  = std::move(other.value());
+        new (storage.data()) T(std::move(other.value()));
         hasValue = true;
       }
     }
@@ -151,8 +150,7 @@ namespace rkcommon {
                     " Optional<>.");
 
       if (other.has_value()) {
-        reset();
-        value()  = std::move(other.value());
+        new (storage.data()) T(std::move(other.value()));
         hasValue = true;
       }
     }
